@@ -33,7 +33,7 @@ TECHNIQUE = ("explicit-state BFS over rewrite sequences on real Pipeline objects
 RULE = ("bases: 13 hand-picked G-DAG pipelines (chain, diamond, fan-in, tuple-output leaf / interior, nullary, signature / PipeFunc default, bound root / "
         "upstream, renamed, disconnected, shared root) + the five MapSpec pipelines of C03; thorough adds ALL G-DAG pipelines with N<=3 functions and the "
         "default/bound decorations of N<=2. Alphabet: copy, cloudpickle round trip, join and | with a disjoint fresh pipeline, update_renames (every root / "
-        "output -> fresh name), update_renames(..., overwrite=True) after earlier renamings (all undone), nest of a pair with ONE exported name (new_output_name = last output of the leaf), function-level update_scope with exclude and pipeline-level update_scope with exclude, update_scope('s') on inputs / outputs / both and update_scope(None) likewise (thorough: re-scoping to 't'), nest_funcs "
+        "output -> fresh name), a default set through one FUNCTION after the pipeline has been used, update_renames(..., overwrite=True) after earlier renamings (all undone), nest of a pair with ONE exported name (new_output_name = last output of the leaf), function-level update_scope with exclude and pipeline-level update_scope with exclude, update_scope('s') on inputs / outputs / both and update_scope(None) likewise (thorough: re-scoping to 't'), nest_funcs "
         "(every convex subset of >= 2 top-level nodes with one leaf, in place and on a copy, and '*'), simplified_pipeline(every node, both "
         "conservatively_combine), split_disconnected (every component), add_mapspec_axis(every root, fresh axis; thorough: a second axis and zipping "
         "another root onto an added axis). BFS over sequences of length <= 2 (quick; thorough: <= 3 for the hand-picked bases and N<=2, <= 2 for the "
@@ -365,6 +365,10 @@ def apply_impl(p, op, m):  # noqa: C901, PLR0911, PLR0912
     if k == "default":
         p.update_defaults({op[1]: "UD"})
         return p
+    if k == "default-f":
+        # a default set through the FUNCTION (the pipeline has been used before: see build()), for a root only this function takes
+        p[op[2]].update_defaults({op[1]: "UD"})
+        return p
     if k == "scope":
         mode = op[2]
         p.update_scope(op[1], inputs="*" if mode in ("in", "both") else None, outputs="*" if mode in ("out", "both") else None)
@@ -447,7 +451,7 @@ def apply_model(m, op, q):  # noqa: C901, PLR0912
         m.note_nests()
     elif k in ("rename", "rename-f"):
         m.M[inv[op[1]]] = op[2]
-    elif k == "default":
+    elif k in ("default", "default-f"):
         orig = inv[op[1]]
         for f in m.spec["funcs"]:
             if orig in f["params"] and orig not in f.get("bound", {}):
@@ -512,7 +516,7 @@ def build(base, hist):
     p = _quiet(build_base, base)
     m = Model(base)
     for i, op in enumerate(hist):
-        if i and hist[i - 1][0] in ("pickle", "copy"):
+        if (i and hist[i - 1][0] in ("pickle", "copy")) or op[0] in ("default-f",):
             # use the copied / unpickled object once before it is rewritten again: its lazily computed state (defaults, root
             # arguments, composed functions) then exists and a rewrite that fails to reset it becomes observable
             try:
@@ -579,6 +583,15 @@ def ops_of(p, m, hist, tier):  # noqa: C901, PLR0912
         ops.append(["rename-ow", m.M[outs[0]], fresh(m.M[outs[0]])])
     if m.fam == "dag" and roots and not any(o[0] == "default" for o in hist):
         ops.append(["default", m.M[roots[0]]])  # a default set AFTER construction (must survive copies, nesting, ...)
+    if m.fam == "dag" and not any(o[0] in ("default", "default-f") for o in hist):
+        for g in m.groups:
+            if len(g) == 1:
+                (fname,) = g
+                ex = exclusive_roots(m, fname)
+                f_ = m.func(fname)
+                if ex and f_["outs"][0] not in m.dropped:
+                    ops.append(["default-f", m.M[ex[0]], m.M[f_["outs"][0]]])
+                    break
     # the scope name is a proper prefix of an existing name (first letter of the first output): "o" for o0, o1, ...;
     # a scope that merely BEGINS a name must still be prepended to it
     sc = sorted(outs)[0].split(".")[-1][0]
@@ -1060,7 +1073,7 @@ def run_history(base, hist, state_oracle=True, info=None):  # noqa: C901, PLR091
 
 
 def _provenance(hist) -> str:
-    kinds = sorted({op[0] for op in hist if op[0] in ("pickle", "copy", "rename-f", "scope-f")})  # rename-f: the pipeline's own caches were reset indirectly
+    kinds = sorted({op[0] for op in hist if op[0] in ("pickle", "copy", "rename-f", "scope-f", "default-f")})  # rename-f: the pipeline's own caches were reset indirectly
     return " | via:" + ",".join(kinds) if kinds else ""
 
 
